@@ -651,6 +651,44 @@ func runC18(r *vk.Run) {
 	})
 	r.Require("e2e_runs_compared", 30)
 
+	// what the engine says ABOUT a record (the error labels a failing stage sets) is part of the answer: it is
+	// text about the data, the same every time -- never an address, a counter or a moment of this run
+	r.Phase("errortext", r.N(6, 60), func(c *vk.Case) {
+		rng := c.Rng
+		vals := []string{"true", "false", "1", `{"hit":1}`, `[1,2]`, `"yes"`, "null", "0.5", `"12"`, `[]`, `{}`}
+		inv := make([]CSpec, rng.Range(1, 3))
+		for i := range inv {
+			inv[i] = CSpec{ID: fmt.Sprintf("id%d", i), Name: fmt.Sprintf("/c%d", i), Image: "img", State: "running", Labels: map[string]string{"job": "j"}}
+			for j := 0; j < rng.Range(3, 8); j++ {
+				inv[i].Frames = append(inv[i].Frames, Frame{Type: 1, TS: c14T0 + int64(j)*1e9 + int64(i)*1000, Body: fmt.Sprintf(`{"cached":%s,"dur":%s,"ip":%s,"n":%d}`, vk.Pick(rng, vals), vk.Pick(rng, vals), vk.Pick(rng, vals), j)})
+			}
+		}
+		for _, q := range []string{`{container=~".+"} | json | cached > 0`, `{container=~".+"} | json | dur > 1s or cached >= 1`, `{container=~".+"} | json | ip = ip("10.0.0.0/8")`, `{container=~".+"} | json cached, dur | dur < 1KB | drop msg`,
+			`count_over_time({container=~".+"} | json | cached > 0 [1h])`, `{container=~".+"} | json | label_format x="{{ div .n .cached }}" | line_format "{{ .dur | duration }}"`} {
+			first := ""
+			for rep := 0; rep < c.R.N(4, 10); rep++ {
+				data, err := evalRaw(newFakeDocker(inv), q, EvalP{Start: c14T0 - 1e9, End: c14T0 + 3600e9, Step: 600 * time.Second, Limit: -1})
+				c.Eval(1)
+				outcome := ""
+				if err != nil {
+					outcome = "error: " + err.Error()
+				} else {
+					res, _ := convertResult(data)
+					outcome = res.Canonical()
+				}
+				if first == "" {
+					first = outcome + "\x00"
+				} else if first != outcome+"\x00" {
+					c.Fail("", fmt.Sprintf("query %s gives a different answer when it is evaluated again over the same logs", q), map[string]any{"query": q, "inventory": inv, "this_run": trunc(outcome, 3000), "first_run": trunc(first, 3000)})
+					return
+				}
+				c.Count("errortext_runs_compared", 1)
+			}
+		}
+		c.Nontrivial(fmt.Sprintf("errortext|%d", c.Idx))
+	})
+	r.Require("errortext_runs_compared", 100)
+
 	// ONE container refuses its log (removed between the listing and the request, unreadable driver, ...) while
 	// the others answer: whatever the tool makes of that -- the query fails, or it answers without that
 	// container -- it makes the same of it in every completion order of the concurrent requests
